@@ -207,7 +207,7 @@ class Env:
 
     def call(self, fn, *args, **kw):
         """call a real repository function: under the shim (sym) or natively"""
-        self.functions.add("%s.%s" % (fn.__module__, fn.__qualname__))
+        self.functions.add("%s.%s" % (getattr(fn, "__module__", type(fn).__module__), getattr(fn, "__qualname__", type(fn).__name__)))
         if self.sym:
             with sx.patched():
                 return fn(*args, **kw)
@@ -410,12 +410,17 @@ class Env:
         vars_ = sorted(vs)
         # an array comparison taken as equal: each  a - b == 0  between two variables ties b to a
         ties = []
+        zero_pins = []
         for c, b in self.path_conds:
             if b and isinstance(c, tuple) and c and c[0] == 'alleq':
                 for x in c[1]:
                     pr = _solve_pair(x)
                     if pr:
                         ties.append(pr)
+                    else:
+                        pn = _solve_pin(x)                     # c1 * var + c0 == 0
+                        if pn:
+                            zero_pins.append(pn)
             elif b and isinstance(c, S.SymBool) and c.op == '==':
                 pr = _solve_pair(c.val)
                 if pr:
@@ -476,6 +481,11 @@ class Env:
                 if keep in env and tied in env:
                     env[tied] = env[keep]
                     named[S.A.names[tied]] = env[keep]
+            for nm_, val_ in zero_pins:
+                a_ = byname.get(nm_)
+                if a_ is not None:
+                    env[a_] = float(val_)
+                    named[nm_] = float(val_)
             try:
                 if not self._path_ok(env):
                     if plan is not None and os.environ.get("OASVERIF_DEBUG_WITNESS"):
@@ -882,6 +892,7 @@ class Handle:
         self.fq = "%s.%s" % (csx.modname, csx.clsname)
         self._conv = False
         self.first_call = None
+        self._in_store = {}
         self.last_frame = []
 
     def _convert_attrs(self):
@@ -920,10 +931,30 @@ class Handle:
                 a = b
             elif a.dtype != object:
                 a = S.lift(a)
-            # a private copy with the declared shape: the component works on the vector's storage, not on our terms
-            a = np.array(a, dtype=object).reshape(self.shape[n]).view(S.SymArray)
-            v.init(n, a)
+            # the component works on the vector's storage, not on our terms; as in OpenMDAO the storage of a live instance
+            # persists between calls (a reference the component kept to inputs[...] sees the next point's values)
+            a = np.array(a, dtype=object).reshape(self.shape[n])
+            store = self._in_store.get(n)
+            if store is None or store.shape != a.shape:
+                store = a.view(S.SymArray)
+                self._in_store[n] = store
+            else:
+                store[...] = a
+            v.init(n, store)
         return v
+
+    def _native_inputs(self, ins):
+        """native input arrays of a live instance: as in OpenMDAO the storage persists between calls and is updated in place"""
+        st = self.__dict__.setdefault("_in_store_native", {})
+        out = {}
+        for n in self.in_names:
+            a = np.array(np.broadcast_to(np.asarray(ins[n], dtype=float), self.shape[n]))
+            if n in st and st[n].shape == a.shape:
+                st[n][...] = a
+            else:
+                st[n] = a
+            out[n] = st[n]
+        return out
 
     def out_store(self):
         """a live output storage initialised as OpenMDAO does (declared values); pass it to successive compute calls"""
@@ -944,7 +975,7 @@ class Handle:
             if self.first_call is None:
                 self.first_call = (ins, {k: np.array(v, dtype=object) for k, v in outs.items()}, list(S.PATH.outer_taken) + list(S.PATH.taken))
             return {k: np.array(v, dtype=object).view(S.SymArray) for k, v in outs.items()}
-        vals = {n: np.array(np.broadcast_to(np.asarray(ins[n], dtype=float), self.shape[n])) for n in self.in_names}
+        vals = self._native_inputs(ins)
         before = {n: v.copy() for n, v in vals.items()}
         if outs is None:
             outs = sx._NativeVec({n: np.array(np.broadcast_to(self.csx.default[n], self.shape[n]), dtype=float)
@@ -974,7 +1005,7 @@ class Handle:
             self.last_partials_frame = [(n, idx) for n in self.in_names for idx in np.ndindex(*self.shape[n])
                                         if vec[n][idx] is not before[n][idx] and not S.iszero(S.lift(vec[n][idx]) - S.lift(before[n][idx]))]
             return out
-        vals = sx._NativeVec({n: np.array(np.broadcast_to(np.asarray(ins[n], dtype=float), self.shape[n])) for n in self.in_names})
+        vals = sx._NativeVec(self._native_inputs(ins))
         before = {n: vals[n].copy() for n in self.in_names}
         jac = prev if prev is not None else sx._NativeJac(self.jinfo)
         if self.comp._discrete_inputs:
